@@ -36,7 +36,25 @@ fn ops_for(text: &[u32]) -> Vec<SOp> {
     idx.push(-1);
     let mut out = vec![Pop, Clear, Retain { m: 2 }, Retain { m: 3 }, Retain { m: 1 }, CloneStr, ShrinkToFit, IntoBumpStr,
         Push { c: 0x20AC }, PushStr { s: vec![0xE9, 0x61] }, Extend { s: vec![0x1F600, 0x61] }, Write { s: vec![0x61, 0x20AC] },
-        Reserve { n: 5, exact: false }, Reserve { n: 0, exact: true }];
+        Reserve { n: 5, exact: false }, Reserve { n: 0, exact: true },
+        Add { s: vec![0xE9, 0x61], assign: false }, Add { s: vec![0x20AC], assign: true }, IntoBytesRoundTrip,
+        FromIter { s: text.to_vec() }, FromUtf8Unchecked { s: text.to_vec() }, AsMutVecPush { c: 0x7A },
+        Views { o: text.to_vec() }, Views { o: vec![0x61, 0xE9] }, Views { o: vec![] },
+        AsciiUpper { via: 0, r: Rg { sk: 0, s: 0, ek: 0, e: 0 } }, AsciiUpper { via: 1, r: Rg { sk: 0, s: 0, ek: 0, e: 0 } },
+        AsciiUpper { via: 2, r: Rg { sk: 0, s: 0, ek: 0, e: 0 } }];
+    // near misses of the text: other case, one char more, one char fewer, last char replaced
+    let upper: Vec<u32> = text.iter().map(|&c| if (0x61..=0x7a).contains(&c) { c - 32 } else { c }).collect();
+    let mut more = text.to_vec();
+    more.push(0x61);
+    let fewer: Vec<u32> = text.iter().cloned().take(text.len().saturating_sub(1)).collect();
+    let mut other = fewer.clone();
+    other.push(0xE8);
+    for o in [upper, more, fewer, other] {
+        out.push(Views { o });
+    }
+    for kind in 0..5u8 {
+        out.push(ExtendStrs { parts: vec![vec![0xE9, 0x61], vec![], vec![0x1F600]], kind });
+    }
     for &i in &idx {
         out.push(Insert { i, c: 0xE9 });
         out.push(InsertStr { i, s: vec![0x61, 0x1F600] });
@@ -45,13 +63,14 @@ fn ops_for(text: &[u32]) -> Vec<SOp> {
         out.push(SplitOff { at: i });
     }
     for r in ranges(blen) {
-        out.push(Drain { r, take: 0, forget: false });
-        out.push(Drain { r, take: 1, forget: false });
+        out.push(Drain { r, take: 0, forget: false, back: 0 });
+        out.push(Drain { r, take: 1, forget: false, back: 1 });
         out.push(ReplaceRange { r, s: vec![0x20AC] });
         out.push(ReplaceRange { r, s: vec![] });
         out.push(Slice { r });
+        out.push(AsciiUpper { via: 3, r });
     }
-    out.push(Drain { r: Rg { sk: 0, s: 0, ek: 0, e: 0 }, take: 1, forget: true });
+    out.push(Drain { r: Rg { sk: 0, s: 0, ek: 0, e: 0 }, take: 1, forget: true, back: 0 });
     out
 }
 
@@ -225,6 +244,9 @@ pub fn snogrow() -> Vec<SProgram> {
                 ops.push(Insert { i: 0, c });
                 ops.push(InsertStr { i: 1, s: vec![c, c] });
                 ops.push(Extend { s: vec![c, 0x20AC] });
+                ops.push(ExtendStrs { parts: vec![vec![c], vec![0x20AC, c]], kind: (lead % 5) as u8 });
+                ops.push(Add { s: vec![c, c], assign: true });
+                ops.push(Write { s: vec![c, 0xE9] });
                 ops.push(ReplaceRange { r: Rg { sk: 1, s: 0, ek: 2, e: 1 }, s: vec![c, c, c] });
                 ops.push(ArenaNoGrow { on: false });
                 ops.push(Push { c });
